@@ -483,6 +483,9 @@ class Tr:
             if cd in sp.stmt_methods:
                 ad, fmt = sp.stmt_methods[cd]
                 at, getter, setter = sp.attrs[ad]
+                if not st.value.args and not st.value.keywords and '{a}' not in fmt:
+                    s_ = sp.state[0]        # X.m() without argument (list.clear())
+                    return '(let %s := %s in\n %s)' % (s_, setter.format(s=s_, v=fmt.format(g=getter.format(s=s_))), cont())
                 if len(st.value.args) != 1 or st.value.keywords:
                     raise TErr('statement method call shape ' + cd)
 
